@@ -2,6 +2,7 @@ import SctpVerif.Driver.Rq
 import SctpVerif.Driver.GenX
 import SctpVerif.Driver.E2E
 import SctpVerif.Driver.Timer
+import SctpVerif.Driver.Assoc
 /-!
 Driver: replays implementation logs (`<comp> <op…> -> <impl result>`) through the L0 models and
 evaluates the executable property predicates on the implementation's results.
@@ -20,6 +21,7 @@ structure Counters where
 structure All where
   rq : Rq.St := {}
   e2e : E2E.St := {}
+  assoc : Assoc.St := {}
   rto : Tm.RtoSt := {}
   timer : Tm.St := {}
   desync : List String := []
@@ -38,6 +40,7 @@ def stepComp (a : All) (comp : String) (op impl : List String) : All × Option S
   | "rq" => let (s, r, e) := Rq.step a.rq op impl; ({ a with rq := s }, some r, e.toList)
   | "gen" => (a, some (GenX.step op), (GenX.pred op impl).toList)
   | "e2e" => let (s, v) := E2E.step a.e2e op impl; ({ a with e2e := s }, none, v)
+  | "as" => let (s, v) := Assoc.step a.assoc op impl; ({ a with assoc := s }, none, v)
   | "rto" => let (s, r, e) := Tm.rtoStep a.rto op impl; ({ a with rto := s }, some r, e.toList)
   | "timer" => let (s, r, e) := Tm.step a.timer op impl; ({ a with timer := s }, some r, e.toList)
   | _ => (a, some "unknown-component", [])
